@@ -516,8 +516,36 @@ def build_and_run(chk, name, src, stdin, tool, modname="main"):
 # all fail the same way) and folds the representative term's other lines.  When a defect is fixed the representative
 # passes, nothing is folded or avoided, and every instance is judged strictly.
 
+def split_typeargs(s):
+    """[(inside_brackets_of_a_generic_instance, text)]"""
+    parts = []
+    i = 0
+    start = 0
+    while True:
+        j = s.find("G[", i)
+        if j < 0:
+            break
+        depth = 0
+        k = j + 1
+        while k < len(s):
+            if s[k] == "[":
+                depth += 1
+            elif s[k] == "]":
+                depth -= 1
+                if depth == 0:
+                    break
+            k += 1
+        parts.append((False, s[start:j + 2]))
+        parts.append((True, s[j + 2:k]))
+        start = k
+        i = k
+    parts.append((False, s[start:]))
+    return parts
+
+
 def strip_tags(s):
-    return re.sub(r' "(?:[^"\\]|\\.)*"(?=;| \})', "", s)
+    """struct tags disappear from type strings (not inside the brackets of a generic instance, where llgo keeps them)"""
+    return "".join(t if inside else re.sub(r' "(?:[^"\\]|\\.)*"(?=;| \})', "", t) for inside, t in split_typeargs(s))
 
 
 def strip_chan_parens(s):
@@ -598,12 +626,6 @@ def has_named_func(term):
     return contains(term, lambda t: t["k"] == "named" and kind_of(t["u"]) == "func")
 
 
-def any_tag(s):
-    """Field(i) line: Name "tag" Anonymous ...: which of two struct types that differ only in tags provides the
-    descriptor depends on the rest of the program, so the tag may be that of the other one"""
-    return re.sub(r'^(\S+) "(?:[^"\\]|\\.)*" ', r'\1 "?" ', s)
-
-
 LINE_CLASSES = [
     # (class id, representative finding key, query filter, transformation of the expected text)
     ("typearg-literal-spacing", "str:main.G[struct_{_A_int_}]", lambda q: True, tight_typeargs),
@@ -624,8 +646,6 @@ TABLE_CLASSES = [
 
 def explain(expected, observed, query, active):
     """the active line classes whose composed transformations turn expected into observed, or None"""
-    if "struct-tag-in-type-string" in active and re.fullmatch(r"f\d+", query) and any_tag(expected) == any_tag(observed):
-        return ["struct-tag-in-type-string"]
     cl = [c for c in LINE_CLASSES if c[0] in active and c[2](query)]
     n = len(cl)
     for mask in range(1, 1 << n):
@@ -809,25 +829,36 @@ def check(chk):
     stats = {"evaluations": 0}
     pool = ThreadPoolExecutor(max_workers=10)
 
-    # 1. fixed representative terms (seed independent): their own programs, judged first
+    # 1. fixed representative terms (seed independent).  Terms of a class listed in known-findings.txt whose instances
+    #    would all fail alike (or crash the compiler) are kept out of the generated programs; their representatives are
+    #    judged in small programs of their own: gate (compiler crash), probe (term classes), modpath (other module path)
     fixed = run_cases_tlc(chk, "fixed", {"MaxDepth": 0, "M0": 1, "M1": 1, "M2": 1, "M3": 1, "Sel": 0}, 600, fixed=True)
     if not fixed:
         raise C.Undecided("no fixed cases emitted")
     gate_cases = [fixed[k] for k in sorted(fixed) if gated(fixed[k]["term"])]
+    gate_key = "build:" + keyify(gate_cases[0]["key"]) if gate_cases else None
+    gate_open = not (gate_key and chk.known.match(gate_key))
+    listed_term_classes = [(cid, rep, pred) for cid, rep, pred in TERM_CLASSES if chk.known.match(rep)]
+
+    def avoided(term):
+        return [cid for cid, rep, pred in listed_term_classes if pred(term)]
+
     modp_cases = [fixed[k] for k in sorted(fixed) if fixed[k].get("label") == "modpath"]
-    fix_cases = [fixed[k] for k in sorted(fixed) if not gated(fixed[k]["term"])]
+    probe_cases = [fixed[k] for k in sorted(fixed) if not gated(fixed[k]["term"]) and avoided(fixed[k]["term"])]
     progs = {}
-    for nm, cs in (("gate", gate_cases), ("modpath", modp_cases), ("fixed", fix_cases)):
+    for nm, cs in (("gate", gate_cases), ("modpath", modp_cases), ("probe", probe_cases)):
         p = Program()
         for c in cs:
             p.add_case(c)
         progs[nm] = p
     small = {}
-    for nm, var, mod in (("gate", "dyn", "main"), ("modpath", "none", "vmod"), ("fixed", "dyn", "main")):
+    for nm, var, mod in (("gate", "dyn", "main"), ("modpath", "none", "vmod"), ("probe", "dyn", "main")):
+        if not progs[nm].expected:
+            continue
         src = progs[nm].source(var, tables=False)
         small[nm] = (pool.submit(build_and_run, chk, nm, src, "", "llgo", mod), pool.submit(build_and_run, chk, nm + "-ref", src, "", "go", mod), var)
 
-    # 2. enumerated / simulated terms, tables (TLC runs meanwhile)
+    # 2. enumerated / simulated terms, tables
     consts = select_consts(chk.tier, sd)
     enum_fut = pool.submit(run_cases_tlc, chk, "enum", consts, 3000)
     # simulation: TLC evaluates Emit on every successor of every visited state, so a trace offers ~30 depth-3 terms
@@ -836,73 +867,35 @@ def check(chk):
     sim_fut = pool.submit(run_cases_sim, chk, "sim3", sim_consts, 50 if thorough else 20, 4, 1500, 8 if thorough else 2)
     cyc_fut = pool.submit(run_small, chk, "CycEq", "n3", {"N": 3, "Sel": 0, "Mod": 1}, ["Reflexive", "Symmetric", "Emit"])
     conv_fut = pool.submit(run_small, chk, "ConvSet", "all", None, ["RoundTrip", "Emit", "EmitPaths"])
-
-    # 3. judge the small programs: they decide which known classes are active
-    gate_open = True
-    small_findings = {}
-    for nm in ("gate", "modpath", "fixed"):
-        fut, ref_fut, var = small[nm]
-        p = progs[nm]
-        if not p.expected:
-            continue
-        ref = need_ref(ref_fut.result(), "the %s program" % nm)
-        ref["variant"] = var
-        agreed = reference_agreed(p, [ref], nm, chk)
-        run = fut.result()
-        f = []
-        if nm == "gate" and not run["ok"]:
-            gate_open = False
-            m = re.search(r"panic: [^\n]*", run["build_out"])
-            chk.reject("build:" + keyify(gate_cases[0]["key"]),
-                       "llgo's compiler fails on a program that mentions the type(s) %s: %s" %
-                       ([c["key"] for c in gate_cases], m.group(0) if m else run["build_out"][-300:]),
-                       {"terms": [c["key"] for c in gate_cases], "source": p.source(var, tables=False), "build_output": run["build_out"][-4000:]})
-            continue
-        judge_llgo_run(chk, p, nm, var, run, agreed, stats, f)
-        if nm == "modpath":
-            # one representative; the other lines are folded when they differ exactly by vmod for main
-            keep = []
-            for x in f:
-                x["key"] = "module=vmod:" + x["key"]
-                if finding_key(x) != MODPATH_REP and x["got"] is not None and x["got"].replace("vmod", "main") == x["want"] \
-                        and any(finding_key(y) == MODPATH_REP for y in f):
-                    judge.folded["module-path-as-pkgpath"] = judge.folded.get("module-path-as-pkgpath", 0) + 1
-                else:
-                    keep.append(x)
-            f = keep
-        small_findings[nm] = f
-    judge.activate(small_findings.get("fixed", []))
-    for nm, f in small_findings.items():
-        judge.report(f, progs[nm])
-
     enum, sim, cyc, conv = enum_fut.result(), sim_fut.result(), cyc_fut.result(), conv_fut.result()
     if len(cyc) != 512:
         raise C.Undecided("CycEq printed %d heaps, expected 512" % len(cyc))
     if not thorough:
         cyc = [c for i, c in enumerate(cyc) if (i + sd) % 4 == 0 or c["nx"] in ([1, 1, 1], [2, 1, 0], [2, 3, 1])]
 
-    # 4. bulk programs
+    # 3. generated programs: fixed terms first (their findings activate the classes), then the seeded ones
     cases = {}
     for src_cases in (fixed, enum, sim):
         for k, c in src_cases.items():
             cases.setdefault(k, c)
     bulk = []
     ngated = 0
-    avoided = {}
-    for k, c in sorted(cases.items()):
+    navoided = {}
+    for k, c in [(k, cases[k]) for k in sorted(fixed)] + [(k, c) for k, c in sorted(cases.items()) if k not in fixed]:
         if gated(c["term"]) and not gate_open:
             ngated += 1
             continue
-        av = judge.avoided(c["term"])
+        av = avoided(c["term"])
         if av:
             for a in av:
-                avoided[a] = avoided.get(a, 0) + 1
+                navoided[a] = navoided.get(a, 0) + 1
             continue
         bulk.append(c)
+    avoided_count = navoided
     chunk_size = 1000
     chunks = [bulk[i:i + chunk_size] for i in range(0, len(bulk), chunk_size)]
     C.log("C15: %d terms in %d program(s) (%d fixed, %d enumerated, %d simulated; %d gated away, avoided %s) after %.0fs" %
-          (len(bulk), len(chunks), len(fixed), len(enum), len(sim), ngated, avoided, time.time() - t_start))
+          (len(bulk), len(chunks), len(fixed), len(enum), len(sim), ngated, avoided_count, time.time() - t_start))
     if thorough:
         plan = lambda ci: ["none", VARIANTS[1 + (ci + sd) % 3]] if len(chunks) > 1 else VARIANTS
     else:
@@ -949,6 +942,39 @@ def check(chk):
                     neg_done = True
         judge.activate(findings)
         judge.report(findings, prog)
+    # 4. the small programs
+    for nm in ("gate", "probe", "modpath"):
+        if nm not in small:
+            continue
+        fut, ref_fut, var = small[nm]
+        p = progs[nm]
+        ref = need_ref(ref_fut.result(), "the %s program" % nm)
+        ref["variant"] = var
+        agreed = reference_agreed(p, [ref], nm, chk)
+        run = fut.result()
+        f = []
+        if nm == "gate" and not run["ok"]:
+            m = re.search(r"panic: [^\n]*", run["build_out"])
+            C.log("C15: rejected " + gate_key)
+            chk.reject(gate_key, "llgo's compiler fails on a program that mentions the type(s) %s: %s" %
+                       ([c["key"] for c in gate_cases], m.group(0) if m else run["build_out"][-300:]),
+                       {"terms": [c["key"] for c in gate_cases], "source": p.source(var, tables=False), "build_output": run["build_out"][-4000:]})
+            continue
+        judge_llgo_run(chk, p, nm, var, run, agreed, stats, f)
+        if nm == "modpath":
+            # one representative; the other lines are folded when they differ exactly by vmod for main
+            keep = []
+            for x in f:
+                x["key"] = "module=vmod:" + x["key"]
+            for x in f:
+                if finding_key(x) != MODPATH_REP and x["got"] is not None and x["got"].replace("vmod", "main") == x["want"] \
+                        and any(finding_key(y) == MODPATH_REP for y in f):
+                    judge.folded["module-path-as-pkgpath"] = judge.folded.get("module-path-as-pkgpath", 0) + 1
+                else:
+                    keep.append(x)
+            f = keep
+        judge.activate(f)
+        judge.report(f, p)
     if not neg_done:
         raise C.Undecided("no llgo program ran far enough for the negative control: nothing was compared")
 
@@ -957,7 +983,7 @@ def check(chk):
     chk.cov["traces_validated_against_impl"] = stats["evaluations"]
     chk.cov["terms"] = len(bulk)
     chk.cov["terms_gated_away"] = ngated
-    chk.cov["terms_avoided_known_class"] = avoided
+    chk.cov["terms_avoided_known_class"] = avoided_count
     chk.cov["active_known_classes"] = sorted(judge.active)
     chk.cov["variants"] = sorted(all_variants)
     chk.cov["cyc_heaps"] = len(cyc)
